@@ -27,6 +27,8 @@ pub const BASE_PRICE: [i128; 3] = [150, 1, 60_000];
 pub struct LpAddrs {
     pub global_state: Pubkey,
     pub authority: Pubkey,
+    /// Second administrator key (target of authority hand-overs).
+    pub authority2: Pubkey,
     pub oracle: Pubkey,
     /// controller per market
     pub controllers: Vec<Pubkey>,
@@ -121,6 +123,8 @@ fn build_base() -> Base {
     let authority = w.new_key("lp_authority");
     w.fund(&authority, 1_000_000_000_000);
     let oracle = w.new_key("lp_oracle");
+    let authority2 = w.new_key("lp_authority2");
+    w.fund(&authority2, 1_000_000_000_000);
     let global_state = lp_pda(&[lp::GLOBAL_STATE_SEED]);
     let controllers: Vec<Pubkey> = d
         .markets
@@ -152,7 +156,7 @@ fn build_base() -> Base {
         .map(|m| ex::feeds_and_markets(&d, &ex::market_feed_tokens(&d, m), &[], &[]))
         .collect();
     let gm_atas = d.users.iter().map(|u| d.markets.iter().map(|m| ata(u, &m.market_token)).collect()).collect();
-    let lp = LpAddrs { global_state, authority, oracle, controllers, positions, gt_users, feeds, gm_atas };
+    let lp = LpAddrs { global_state, authority, authority2, oracle, controllers, positions, gt_users, feeds, gm_atas };
     Base { world: w, dep: d, lp }
 }
 
@@ -339,6 +343,39 @@ pub fn gradient_sparse_ix(a: &LpAddrs, signer: &Pubkey, idx: Vec<u8>, values: Ve
         lp::ID,
         lp::accounts::UpdateApyGradient { global_state: a.global_state, authority: *signer },
         lp::instruction::UpdateApyGradientSparse { bucket_indices: idx, apy_values: values },
+    )
+}
+
+pub fn staleness_ix(a: &LpAddrs, signer: &Pubkey, secs: u32) -> Instruction {
+    any_ix(
+        lp::ID,
+        lp::accounts::SetPricingStaleness { global_state: a.global_state, authority: *signer },
+        lp::instruction::SetPricingStaleness { staleness_seconds: secs },
+    )
+}
+
+pub fn transfer_authority_ix(a: &LpAddrs, signer: &Pubkey, new_authority: &Pubkey) -> Instruction {
+    any_ix(
+        lp::ID,
+        lp::accounts::TransferAuthority { global_state: a.global_state, authority: *signer },
+        lp::instruction::TransferAuthority { new_authority: *new_authority },
+    )
+}
+
+pub fn accept_authority_ix(a: &LpAddrs, signer: &Pubkey) -> Instruction {
+    any_ix(
+        lp::ID,
+        lp::accounts::AcceptAuthority { global_state: a.global_state, pending_authority: *signer },
+        lp::instruction::AcceptAuthority {},
+    )
+}
+
+pub fn create_controller_ix(a: &LpAddrs, signer: &Pubkey, mint: &Pubkey, index: u64) -> Instruction {
+    let controller = lp_pda(&[lp::LP_TOKEN_CONTROLLER_SEED, a.global_state.as_ref(), mint.as_ref(), &index.to_le_bytes()]);
+    any_ix(
+        lp::ID,
+        lp::accounts::CreateLpTokenController { global_state: a.global_state, controller, authority: *signer, system_program: system_program::ID },
+        lp::instruction::CreateLpTokenController { lp_token_mint: *mint, controller_index: index },
     )
 }
 
